@@ -140,7 +140,7 @@ def gen_case(rng, cid, tier, algo=None, profile=None):
         shape = list(rng.choice(facs))
     elif u < 0.4:
         shape = rng.choice([[1, n], [n, 1]])
-    T = rng.randint(1, 20 if tier == "quick" else 40)
+    T = rng.randint(1, 20 if tier == "quick" else 32)
     if rng.random() < 0.15:
         T = rng.randint(1, 3)
     k = 0
@@ -612,7 +612,12 @@ def execute(ctx, cases, stats):
     for pos, i in enumerate(order):
         chunks[pos % nchunks].append(i)
     tasks = [{"cases": [cases[i] for i in ch]} for ch in chunks if ch]
+    import time
+    tm = ctx.cov.setdefault("timing_s", {})
+    t0 = time.time()
     results = kit.parallel_map(run_impl, tasks, nproc=14)
+    tm["implementation"] = round(tm.get("implementation", 0) + time.time() - t0, 1)
+    t0 = time.time()
     obs = [None] * len(cases)
     for ch, res in zip([c for c in chunks if c], results):
         for i, o in zip(ch, res):
@@ -648,6 +653,9 @@ def execute(ctx, cases, stats):
         reqs2 += r2
         svd_store[i] = svds
     rep2 = ctx.driver(reqs2) if reqs2 else []
+    tm["model (driver, svd)"] = round(tm.get("model (driver, svd)", 0) + time.time() - t0, 1)
+    ctx.cov["driver_requests"] = ctx.cov.get("driver_requests", 0) + len(reqs) + len(reqs2)
+    t0 = time.time()
     # judge
     for i, c in enumerate(cases):
         o = obs[i]
@@ -696,6 +704,7 @@ def execute(ctx, cases, stats):
         for msg in bad[:3]:
             ctx.violation(f"{c['algo']} shape={c['shape']} sketch={c['k']} delta={kit.hex_f64(c['delta'])} lr={kit.hex_f64(c['lr'])} "
                           f"T={len(c['gs'])} [{c['profile']}]: {msg}", {"case": c})
+    tm["oracle + comparison"] = round(tm.get("oracle + comparison", 0) + time.time() - t0, 1)
     return obs
 
 
@@ -749,11 +758,11 @@ def run(ctx):
     cases = corpus_cases()
     ncorpus = len(cases)
     cases += fixed_cases()
-    nrand = 450 if ctx.tier == "quick" else 4200
+    nrand = 450 if ctx.tier == "quick" else 2700
     for i in range(nrand):
         cases.append(gen_case(rng, f"r{ctx.seed}-{i}", ctx.tier, algo=ALGOS[i % 6]))
-    _add_train(rng, cases, 42 if ctx.tier == "quick" else 336)
-    ctx.cov["rule"] = ("a case is (algorithm, w_shape, sketch size, delta, lr, gradient history of length 1..20 [40 thorough] in dimension "
+    _add_train(rng, cases, 42 if ctx.tier == "quick" else 280)
+    ctx.cov["rule"] = ("a case is (algorithm, w_shape, sketch size, delta, lr, gradient history of length 1..20 [32 thorough] in dimension "
                        "2..8 [12]); fixed witnesses first, then seeded random histories (gauss, per-step scaled, zero steps, small integers, "
                        "signed basis vectors, sparse, rank < sketch size (float / integer / scaled), rank = sketch size). Non-trivial: "
                        "OGD/ADA with >= 2 steps; sketched with some escaped mass rho_t > 1e-9 tr(C) (real deflation) or with the lossless "
